@@ -198,7 +198,15 @@ Definition import_block (name_row desc_row : row) (data_rows : grid) (acc : res 
   | Err e => Err e
   | Ok db =>
       match data_rows with
-      | [] => Err 5                                             (* data_rows[0]: IndexError *)
+      | [] =>                                                   (* no data rows: no periods, empty series (fix C19_2) *)
+          let groups := col_iter (combine (slice name_row (S dc) ec ++ [""%string])
+                                          (slice desc_row (S dc) ec ++ [""%string])) O None in
+          Ok (fold_left
+                (fun d g =>
+                   let '(cs, n, ds) := g in
+                   let s := set_data A f (empty_series A (length cs)) [] [] None in
+                   dset A d n (ISer A (kept_desc [] s ds) s))
+                groups db)
       | r0 :: _ =>
           match parse_period f (cell_at r0 dc) with
           | None => Err 3
